@@ -275,6 +275,18 @@ namespace GeographicLib {
       Math::sincosd(azi, calp, salp);
       return 1 / (calp * calp / m + salp * salp / n);
     }
+    // DS1: the diagonal term is added to wt after the sum that consumes wt
+    static double Accum(const double* c, int n, double u) {
+      double v = 0;
+      for (int m = n; m >= 0; --m) {
+        double wt = 0;
+        for (int k = n; k > m; --k)
+          wt = u * wt + c[k];
+        v = u * v + wt;
+        wt += m * c[m];
+      }
+      return v;
+    }
     // DEAD1: the first condition already covers the two that follow
     static int Hemi(int ia, int ib) {
       if (ia == 0 || ib == 0)
